@@ -190,6 +190,10 @@ def make_harness(n, fix=None):
                          and len(fix) > 3 else None)
       except ValueError:
         raise _Skip()
+      if applied:
+        # an export between two updates (what quantize(), need_calibration
+        # and save() do) must not influence what is exported later
+        rm.get_quantization_recipe()
       try:
         rm.add_quantization_config(regex, op, cfg, alg)
         applied += 1
@@ -379,6 +383,8 @@ def replay(c):
     alg = ALGS[d[f'u{i}_alg']]
     try:
       cfg = _build_cfg(d, f'u{i}')
+      if hist:
+        q.get_quantization_recipe()  # export between updates, as the harness
       q.update_quantization_recipe(regex, op, cfg, alg)
       hist.append(f'update({regex!r},{op.value},{alg.value},{cfg})')
     except ValueError:
